@@ -119,4 +119,141 @@ PoolConeTable ==
   [TrySpawn |-> [C35 |-> {"active", "known", "out.creates", "out.complete", "panic"}],
    Removed  |-> [C35 |-> {"active", "known", "out.creates", "out.complete", "panic"}]]
 
+(***************************************************************************)
+(*                             Part Standard                               *)
+(*                                                                         *)
+(* StandardSpawner (spawn/standard.rs): one configured server.             *)
+(* State  resolved : 0 = no address stored | the stored address            *)
+(*        spawned  : has_spawned (= is_complete())                         *)
+(*   history (property level, not in the code):                            *)
+(*        live       the source created last has not been removed yet      *)
+(*        lastAddr   address of the source created last                    *)
+(*        lastReason reason of the last removal ("none" before the first)  *)
+(*        demob      the source has been demobilised                       *)
+(* Actions [t |-> "TrySpawn", fail, ans]  try_spawn with the DNS lookup    *)
+(*            scripted as in part Pool.  spawner_task calls try_spawn only *)
+(*            while ~is_complete(): StdEnabled.                            *)
+(*         [t |-> "Removed", reason]      handle_source_removed; the system*)
+(*            reports the removal of a source that exists: StdEnabled.     *)
+(***************************************************************************)
+StdInit == [resolved |-> 0, spawned |-> FALSE, live |-> FALSE, lastAddr |-> 0, lastReason |-> "none", demob |-> FALSE]
+
+StdEnabled(s, a) == IF a.t = "TrySpawn" THEN ~s.spawned ELSE s.live
+
+\* standard.rs:56-64 do_resolve(false) + spawn/mod.rs:294-325 resolve_single_ntp_server (first connectable address)
+StdAddr(s, a) == IF s.resolved # 0 THEN s.resolved
+                 ELSE IF a.fail \/ a.ans = <<>> THEN 0 ELSE Head(a.ans)
+
+StdPost(s, a) ==
+  IF a.t = "TrySpawn"
+    THEN LET addr == StdAddr(s, a)
+         IN IF addr = 0 THEN s                                                    \* standard.rs:74-76
+            ELSE [s EXCEPT !.resolved = addr, !.spawned = TRUE, !.live = TRUE, !.lastAddr = addr]   \* :77-92
+    ELSE [s EXCEPT !.resolved = IF a.reason = "Unreachable" THEN 0 ELSE @,       \* standard.rs:103-106
+                   !.spawned  = IF a.reason # "Demobilized" THEN FALSE ELSE @,   \* standard.rs:107-109
+                   !.live = FALSE, !.lastReason = a.reason, !.demob = @ \/ a.reason = "Demobilized"]
+
+StdOut(s, a) ==
+  [creates  |-> IF a.t = "TrySpawn" /\ StdAddr(s, a) # 0 THEN <<StdAddr(s, a)>> ELSE <<>>,
+   complete |-> StdPost(s, a).spawned]
+
+\* "never respawns a demobilised source": once demobilised the spawner stays complete, so the task never calls try_spawn again
+C36_NoRespawnAfterDemobilized(s) == s.demob => s.spawned
+C36_DemobilizedStep(s, a) == (a.t = "Removed" /\ a.reason = "Demobilized") => (StdPost(s, a).spawned = s.spawned /\ StdOut(s, a).creates = <<>>)
+\* "re-resolves the server name after an unreachable removal" (and, as coded, reuses the address after a network issue)
+C36_ReResolve(s, a) ==
+  (a.t = "TrySpawn" /\ StdOut(s, a).creates # <<>>) =>
+     StdOut(s, a).creates[1] = IF s.lastReason \in {"none", "Unreachable"} THEN Head(a.ans) ELSE s.lastAddr
+
+StdConeTable ==
+  [TrySpawn |-> [C36 |-> {"resolved", "spawned", "out.creates", "out.complete", "panic"}],
+   Removed  |-> [C36 |-> {"resolved", "spawned", "out.creates", "out.complete", "panic"}]]
+
+(***************************************************************************)
+(*                               Part Pacer                                *)
+(*                                                                         *)
+(* spawner_task (spawn/mod.rs:246-292) around a scripted Spawner.          *)
+(* Discrete time: W ticks = NETWORK_WAIT_PERIOD.  At every instant the     *)
+(* task first runs until it blocks (Loop/Wait below), then the environment *)
+(* acts; actions:                                                          *)
+(*   Start        the task is spawned                                      *)
+(*   Tick         one tick passes                                          *)
+(*   Event(k)     the system sends Registered | Removed | Idle             *)
+(*   Script(d, c) the next try_spawn will take d ticks and leave the       *)
+(*                spawner complete (c) or incomplete                       *)
+(* The scripted spawner becomes incomplete on every Removed event.         *)
+(*                                                                         *)
+(* State  ticket, el : has_ticket, last_ticket_time.elapsed() capped at W  *)
+(*        busy       : 0 | remaining ticks of the running try_spawn        *)
+(*        q          : events waiting in the channel (only while busy)     *)
+(*        complete, tryC, nextD, nextC : the scripted spawner              *)
+(*        sinceEnd   : history, ticks since the last attempt ended, capped *)
+(*                     at W; W before the first attempt                    *)
+(* The code measures the wait from the instant try_spawn RETURNED          *)
+(* (mod.rs:262), hence pacing is stated on start_{k+1} - end_k.            *)
+(* Normal forms (values the code cannot read before overwriting them):     *)
+(* ticket => el = W;  busy > 0 => ticket = FALSE, el = 0, sinceEnd = 0.    *)
+(***************************************************************************)
+CONSTANTS W
+
+Min2(a, b) == IF a <= b THEN a ELSE b
+
+PacerInit == [up |-> FALSE, ticket |-> TRUE, el |-> W, complete |-> FALSE, busy |-> 0, tryC |-> FALSE, q |-> <<>>,
+              nextD |-> 0, nextC |-> FALSE, sinceEnd |-> W,
+              evStart |-> FALSE, evGap |-> 0, evEnd |-> FALSE]
+PacerClear(s) == [s EXCEPT !.evStart = FALSE, !.evGap = 0, !.evEnd = FALSE]
+
+PacerHandle(s, k) == IF k = "Removed" THEN [s EXCEPT !.complete = FALSE] ELSE s    \* mod.rs:280-288
+
+\* try_spawn returned: mod.rs:261-262
+PacerEndTry(s) == [s EXCEPT !.complete = s.tryC, !.busy = 0, !.ticket = FALSE, !.el = 0, !.sinceEnd = 0, !.evEnd = TRUE]
+
+RECURSIVE PacerLoop(_), PacerWait(_)
+\* top of the loop, mod.rs:254-263
+PacerLoop(s) ==
+  LET t  == s.ticket \/ s.el >= W
+      s1 == [s EXCEPT !.ticket = t, !.el = IF t THEN W ELSE @]
+  IN IF t /\ ~s1.complete
+       THEN LET s2 == [s1 EXCEPT !.evStart = TRUE, !.evGap = s1.sinceEnd, !.tryC = s1.nextC]
+            IN IF s1.nextD = 0 THEN PacerWait(PacerEndTry(s2))
+               ELSE [s2 EXCEPT !.busy = s1.nextD, !.ticket = FALSE, !.el = 0, !.sinceEnd = 0]   \* blocked inside try_spawn
+       ELSE PacerWait(s1)
+\* mod.rs:265-278: recv() / timeout(W - elapsed, recv()); a waiting event is taken at once, otherwise the task blocks
+PacerWait(s) ==
+  IF s.q # <<>> THEN PacerLoop(PacerHandle([s EXCEPT !.q = Tail(s.q)], Head(s.q))) ELSE s
+
+PacerEnabled(s, a) ==
+  CASE a.t = "Start"  -> ~s.up
+    [] a.t = "Tick"   -> s.up
+    [] a.t = "Event"  -> s.up
+    [] a.t = "Script" -> s.nextD # a.d \/ s.nextC # a.c
+
+PacerFull(s0, a) ==
+  LET s == PacerClear(s0) IN
+  CASE a.t = "Start"  -> PacerLoop([s EXCEPT !.up = TRUE])
+    [] a.t = "Script" -> [s EXCEPT !.nextD = a.d, !.nextC = a.c]
+    [] a.t = "Event"  -> IF s.busy > 0 THEN [s EXCEPT !.q = Append(@, a.k)]
+                         ELSE PacerLoop(PacerHandle(s, a.k))
+    [] a.t = "Tick"   -> IF s.busy > 1 THEN [s EXCEPT !.busy = @ - 1]
+                         ELSE IF s.busy = 1 THEN PacerWait(PacerEndTry(s))
+                         ELSE LET s1 == [s EXCEPT !.el = Min2(@ + 1, W), !.sinceEnd = Min2(@ + 1, W)]
+                              IN IF ~s1.ticket /\ s1.el >= W THEN PacerLoop(s1)     \* the timeout fires: Idle, mod.rs:273
+                                 ELSE s1
+
+PacerPost(s, a) == PacerClear(PacerFull(s, a))
+PacerOut(s, a) == LET f == PacerFull(s, a) IN [started |-> f.evStart, gap |-> f.evGap, ended |-> f.evEnd]
+
+\* "starts a new spawn attempt at most once per network wait period": an attempt starts no earlier than W after the previous
+\* one ended (weaker reading: measured from the end of the previous attempt, as the code does)
+C36_Paced(s, a) == PacerOut(s, a).started => PacerOut(s, a).gap >= W
+\* "while incomplete, keeps attempting at that pace": whenever the task is idle with an incomplete spawner, less than W has
+\* passed since the last attempt ended (at W the next attempt has started)
+C36_Responsive(s) == (s.up /\ ~s.complete /\ s.busy = 0) => s.sinceEnd < W
+\* no attempt while complete
+C36_OnlyWhenIncomplete(s, a) == PacerOut(s, a).started => (~s.complete \/ (a.t = "Event" /\ a.k = "Removed") \/ s.q # <<>>)
+
+PacerConeTable ==
+  [x \in {"Start", "Tick", "Event", "Script"} |->
+     [C36 |-> {"up", "complete", "busy", "qlen", "sinceEnd", "out.started", "out.gap", "out.ended", "panic"}]]
+
 =============================================================================
